@@ -42,10 +42,12 @@ class CfgTranslator(Translator):
     """adds: `k in d`, `d[k]`, `del d[k]` under an `if`, `x is None` for the config dicts named in `dicts`;
     `if NAME is not None:` as a match on an Option; tuple-unpacking assignment from a call."""
 
-    def __init__(self, dicts=(), options=(), **kw):
+    def __init__(self, dicts=(), options=(), probes=None, **kw):
         super().__init__(**kw)
         self.dicts = set(dicts)
         self.options = set(options)
+        self.probes = probes or {}       # python expression text -> Lean `Option` (none = evaluating it raises)
+        self.caught = []                 # exception classes of the translated `try` statements
 
     def e_Compare(self, n):
         if len(n.ops) == 1 and isinstance(n.ops[0], (ast.In, ast.NotIn)) and isinstance(n.comparators[0], ast.Name) \
@@ -80,6 +82,22 @@ class CfgTranslator(Translator):
                 b = self.block(s.orelse, after)
                 return (f'match {v} with\n| some {v} =>\n{textwrap.indent(a, "  ")}\n| none =>\n'
                         f'{textwrap.indent(b, "  ")}')
+            if isinstance(s, ast.Try):
+                # try: x = <probe>  except <all>: x = e      ==>  match on the outcome of the probe
+                ok = (len(s.body) == 1 and isinstance(s.body[0], ast.Assign) and len(s.body[0].targets) == 1
+                      and isinstance(s.body[0].targets[0], ast.Name) and ast.unparse(s.body[0].value) in self.probes
+                      and len(s.handlers) == 1 and not s.orelse and not s.finalbody
+                      and isinstance(s.handlers[0].type, ast.Name)
+                      and s.handlers[0].type.id in ('BaseException', 'Exception'))
+                if not ok:
+                    raise Untranslatable('try statement shape: ' + ast.unparse(s)[:80])
+                self.caught.append(s.handlers[0].type.id)
+                x = self.names.get(s.body[0].targets[0].id, s.body[0].targets[0].id)
+                after = self.block(rest, k) if (rest or k is not None) else None
+                good = f'let {x} := (some got__)\n{after}'
+                bad = self.block(list(s.handlers[0].body), after)
+                return (f'match {self.probes[ast.unparse(s.body[0].value)]} with\n| some got__ =>\n'
+                        f'{textwrap.indent(good, "  ")}\n| none =>\n{textwrap.indent(bad, "  ")}')
             if isinstance(s, ast.Assign) and len(s.targets) == 1 and isinstance(s.targets[0], ast.Tuple) \
                     and all(isinstance(e, ast.Name) for e in s.targets[0].elts) and isinstance(s.value, ast.Call):
                 names = ', '.join(self.names.get(e.id, e.id) for e in s.targets[0].elts)
@@ -359,15 +377,15 @@ def generate():
 
     def flget(a):
         if len(a) == 2 and a[1] == '(none : Option String)':
-            return f'(localClass {a[0]})'
+            return f'(localSelf {a[0]})'
         raise Untranslatable('f_locals.get default')
-    tr = Translator(none='(none : Option String)', subst={'_self.__class__.__name__': '_self'},
-                    calls={'f_locals.get': flget,
-                           'hasattr': lambda a: ('true' if a == ['_self', '"__class__"'] else
-                                                 (_ for _ in ()).throw(Untranslatable('hasattr')))})
-    parts.append('/-- the class-name rule of `_process_frame`; `localClass n` = `type(f_locals[n]).__name__` when the local\n'
-                 '    `n` exists and is not `None` -/')
-    parts.append(tr.function(synth, 'def classNameOf (localClass : String → Option String) : Option String'))
+    tr = CfgTranslator(options=['_self'], probes={'_self.__class__.__name__': '_self'},
+                       none='(none : Option String)', calls={'f_locals.get': flget})
+    parts.append('/-- the class-name rule of `_process_frame`.  `localSelf n` = `none` when the frame has no local `n` or it is\n'
+                 '    `None`, else `some p` with `p` the outcome of reading `<local>.__class__.__name__` (`none` = it raises) -/')
+    parts.append(tr.function(synth, 'def classNameOf (localSelf : String → Option (Option String)) : Option String'))
+    parts.append('/-- the exception class the class-name read is guarded with -/\ndef classNameCatches : List String := [' +
+                 ', '.join(lean_str(c) for c in tr.caught) + ']\n')
 
     # ---- parse_short_name / is_app_frame
     iaf = find_def(cfgsvc, 'ConfigService.is_app_frame')
